@@ -390,6 +390,36 @@ def gen_dead(rng):
     return sc
 
 
+def gen_exact(rng):
+    """exact arithmetic mode on ordinary nodes: decimal samples with 1-2 digits"""
+    base = rng.choice([gen_core1, gen_tandem, gen_prio, gen_renege, gen_sched, lambda r: gen_sched(r, pre_choices=(1, 2, 3)),
+                       lambda r: gen_prio(r, preempt=True)])
+    sc = base(rng)
+    sc["exact"] = rng.choice([10, 14, 20, 28, 50])
+    sc["dec"] = rng.choice([1, 1, 2])
+    # decimal-looking values: ticks that are not multiples of the unit's inverse, so binary drift would show
+    def dec_samples(vals):
+        return sorted(set(max(0, v * rng.choice([1, 3, 7]) + rng.choice([0, 1, 3])) for v in vals)) or [1]
+    N, K = sc["N"], sc["K"]
+    for key in ("arrS", "svcS", "patS"):
+        if key in sc:
+            for n in range(N):
+                for k in range(K):
+                    if sc[key][n][k]:
+                        sc[key][n][k] = dec_samples(sc[key][n][k])
+    sc["T"] = sc["T"] * 5
+    for nd in sc["nodes"]:
+        if nd.get("kind") == "sched":
+            s = nd["sched"]
+            t, ends = 0, []
+            for e in s["ends"]:
+                t += rng.randint(3, 40)
+                ends.append(t)
+            s["ends"] = ends
+            s["off"] = rng.choice([0, 0, 3, 7])
+    return sc
+
+
 def gen_stopcount(rng):
     base = rng.choice([gen_core1, gen_tandem, gen_prio, gen_renege, gen_cls])
     sc = base(rng)
@@ -424,6 +454,7 @@ def gen_stopcount(rng):
 FAMILIES = {
     "stopcount": gen_stopcount,
     "trk": gen_trk,
+    "exact": gen_exact,
     "dead": gen_dead,
     "clsren": gen_clsren,
     "sched": gen_sched,
@@ -552,6 +583,13 @@ def mc_instances(name, tier):
                         "arrS": [[[1, 2], [2]]], "svcS": [[[2, 3], [1]]], "cct": [[[], [1, 2]], [[], []]],
                         "route": [tm([[0]]), tm([[0]])], "T": 7 if not big else 9})
         return [(fam, 4 if not big else 5)]
+    if name == "exact":
+        out = []
+        for base in ("tandem", "sched", "renege"):
+            for scs, maxc in mc_instances(base, tier):
+                scs = [dict(copy.deepcopy(x), exact=14, dec=1) for x in scs[:4]]
+                out.append((scs, maxc))
+        return out
     if name == "dead":
         fams = []
         fam = []
